@@ -41,6 +41,27 @@ def classify_number_to_text(crate, arm_body, var, ctx_emit, key, loc_fn):
                         return True
         return False
 
+    # f64 values computed from the number (scaled, rounded, split into mantissa and exponent): printing one of them instead of the number
+    # itself is not exact
+    ARITH_M = {"log10", "log2", "ln", "powi", "powf", "abs", "floor", "round", "trunc", "ceil", "mul_add", "sqrt", "exp", "fract", "rem_euclid", "div_euclid", "signum", "copysign", "recip"}
+    derived = set()
+    for _ in range(3):
+        for x in H.walk(arm_body):
+            if isinstance(x, dict) and x.get("k") == "Let" and x.get("init") is not None and H.kind(x.get("pat")) == "Bind":
+                init_ = x["init"]
+                mentions = any(H.path_local(y) == var or H.path_local(y) in derived for y in H.walk(init_) if H.kind(y) == "Path")
+                computes = any((H.kind(y) == "Binary" and y["op"] in ("Add", "Sub", "Mul", "Div", "Rem")) or (H.kind(y) == "MethodCall" and y["name"] in ARITH_M) for y in H.walk(init_))
+                if mentions and computes and (init_.get("ty") or x["pat"].get("ty") or "").lstrip("&") == "f64":
+                    derived.add(x["pat"]["name"])
+
+    def is_computed(arg):
+        a = H.strip(arg)
+        if H.path_local(a) in derived:
+            return True
+        if (a.get("ty") or "").lstrip("&") == "f64" and H.kind(a) in ("Binary", "MethodCall") and any(H.path_local(y) == var or H.path_local(y) in derived for y in H.walk(a) if H.kind(y) == "Path"):
+            return (H.kind(a) == "Binary" and a["op"] in ("Add", "Sub", "Mul", "Div", "Rem")) or (H.kind(a) == "MethodCall" and a["name"] in ARITH_M)
+        return False
+
     def visit(n, integral):
         nonlocal n_sites
         if isinstance(n, list):
@@ -69,6 +90,9 @@ def classify_number_to_text(crate, arm_body, var, ctx_emit, key, loc_fn):
             return
         if k == "Macro" and n["name"] in ("format", "write", "writeln", "format_args"):
             for ph, arg in H.placeholder_args(crate, n):
+                if arg is not None and is_computed(arg):
+                    n_sites += 1
+                    ctx_emit(key + "#format-of-computed-value", False, "the text is made from a value computed from the number (scaling / rounding / mantissa-exponent split), not from the number itself: the digits printed are those of the computed value", H.loc(n))
                 if arg is not None and H.path_local(arg) == var:
                     n_sites += 1
                     prec, width, tr = ph.get("precision"), ph.get("width"), ph.get("trait")
